@@ -84,7 +84,7 @@ func runOnce(sc *scenario, r *explore.Run, trace bool) (*exec, vrt.Outcome) {
 	case out = <-done:
 	case <-time.After(120 * time.Second):
 		// an un-hooked blocking operation froze the cooperative scheduler: harness error, never a verdict
-		fmt.Printf("HARNESS-ERROR property=C18 scenario %s: execution did not finish within 120 s of real time (un-instrumented blocking operation?) schedule=%v\n", sc.name, r.Choices)
+		fmt.Fprintf(os.Stderr, "HARNESS-ERROR property=C18 scenario %s: execution did not finish within 120 s of real time (un-instrumented blocking operation?) schedule=%v\n", sc.name, r.Choices)
 		os.Exit(2)
 	}
 	if ch.err != nil {
@@ -221,6 +221,7 @@ func run(c *vf.Ctx) {
 		return
 	}
 	vrt.ReleasePoints = true
+	vrt.SelectOrders = true // which ready case of a multi-case select fires is the explorer's choice, not the Go runtime's
 	if dn, err := os.OpenFile(os.DevNull, os.O_WRONLY, 0); err == nil {
 		os.Stdout = dn // the library's packet-describing handlers print; workers report through their shard file
 	}
